@@ -1,7 +1,7 @@
 """C14 - all input formats and eigenbases give the same result; operator_to_BlockSeries returns L_i^dagger A R_j."""
 from .common import Decision, run_units
 from .series_props import specs_solver, specs_masks, fold_canaries
-from .format_props import specs_linalg_misc, specs_keys, specs_projection, specs_blocks
+from .format_props import specs_linalg_misc, specs_keys, specs_projection, specs_blocks, specs_head
 from .relational_common import NAT_LEAN, NAT_LEAN_NH, NAT_NOTE, INSTANCE_NOTE
 
 
@@ -9,7 +9,7 @@ def check(tier, seed):
     d = Decision("C14", tier, seed)
     t = 60000 if tier == "thorough" else 20000
     sub = [("contracts.bd_guards", "unit_check_biorthonormality", {"nsub": n, "kind": k, "timeout_ms": t}) for n, k in ((1, "ndarray"), (3, "mixed"), (2, "sympy-mutable"), (2, "sympy-immutable"))] + [("contracts.bd_guards", "unit_normalize_subspaces", {"timeout_ms": t})]
-    d.add_units(fold_canaries(run_units(specs_keys(tier) + specs_projection(tier) + specs_blocks(tier) + specs_solver(tier) + specs_masks(tier) + sub + specs_linalg_misc(tier))))
+    d.add_units(fold_canaries(run_units(specs_keys(tier) + specs_projection(tier) + specs_blocks(tier) + specs_solver(tier) + specs_masks(tier) + sub + specs_linalg_misc(tier) + specs_head(tier))))
     d.add_lean(NAT_LEAN + NAT_LEAN_NH + ["PV.Laws.coeff_hom_law", "PV.Laws.unitary_law", "PV.Laws.perm_law"])
     d.assumptions += [NAT_NOTE,
                       INSTANCE_NOTE + "a change of (bi)orthonormal eigenbasis is conjugation A -> L^dagger A R with L^dagger R = 1, a ring homomorphism of the block algebra "
@@ -18,7 +18,8 @@ def check(tier, seed):
                       "identity / fancy column indexing and np.compress returning the selected elements in order (A-NP, A-SC), copy() being a shallow copy",
                       "dense / sparse / symbolic branches of the diagonal solver and of the masks have the same element-wise postcondition (units sylvester, bd_masks)"]
     d.not_decided += ["value equality of results across dense / sparse / symbolic arithmetic of numpy, scipy and sympy themselves (A-NP, A-SC, A-SY): bounded battery only",
-                      "the wiring of block_diagonalize between the converters, _normalize_subspace_eigenvectors and _check_biorthonormality (each under contract) is exercised by the battery only"]
+                      "the part of block_diagonalize after operator_to_BlockSeries that is not under a contract of its own (choice of the multiplication operator, assembly of the scope "
+                      "dictionary) is exercised by the battery only; its head (converters -> eigenvector normalisation -> biorthonormality check -> implicit solvers -> operator_to_BlockSeries) is under contract (contracts.bd_head)"]
     d.explanation = ("Each format converter is under contract on the real code: lists map perturbation k to the unit vector e_k; monomial keys map to exponent vectors in "
                      "name-sorted symbol order (any set iteration order), prefactors and non-commutative symbols are rejected; _dict_to_BlockSeries keeps keys and values "
                      "and never mutates the caller's dict; the Taylor recursion yields prod 1/n_k! d^n/ds^n at s = 0 times the monomial; nested block lists are "
